@@ -6,7 +6,7 @@
 (* redundancy marks are taken from the dump; TLC recomputes from them what DiffTree derives --         *)
 (* propagated categories, filtering, statistics, net / incompatible verdicts, exit bits -- and          *)
 (* compares with what the implementation derived and reported.                                          *)
-EXTENDS Naturals, Integers, Sequences, FiniteSets, TLC, Json, IOUtils, KnownFindings
+EXTENDS Naturals, Integers, Sequences, FiniteSets, TLC, Json, IOUtils, KnownFindings, Catalogue
 
 T == ndJsonDeserialize(IOEnv.TRACE)
 VARIABLES l, verdict
@@ -81,8 +81,13 @@ LeafVerdict(ev) ==
 IndirKinds == {"pointer_diff", "reference_diff", "array_diff"}
 IndirOrphans(ev) == {n \in Nodes(ev) \ Roots(ev) : ev.nodes[n].hasLocal /\ ev.nodes[n].kindname \in IndirKinds /\ ~ev.nodes[ev.nodes[n].parent].hasLocal}
 
+(* Catalogue!CategoryOfKind: the pair differs by exactly one catalogue entry (ev.mutKind, "" otherwise) whose category class is        *)
+(* specified: some node carries that class in its local category.                                                                   *)
+CatalogueMismatch(ev) == HasSpecifiedCategory(ev.mutKind) /\ ~\E n \in Nodes(ev) : CategoryOfKind(ev.mutKind) \in LCat(ev, n)
+
 Verdict(ev) ==
   IF ev.ret # "ok" THEN "bad:crash"
+  ELSE IF CatalogueMismatch(ev) THEN "bad:catalogue-entry-not-categorized-as-modelled"
   ELSE IF IndirOrphans(ev) # {} THEN "bad:local-change-of-indirection-not-local-to-its-user"
   ELSE IF \E n \in Nodes(ev) : ~(LCat(ev, n) \subseteq OCat(ev, n)) THEN "bad:local-category-not-in-category"
   ELSE IF \E n \in Nodes(ev) : ~(OCat(ev, n) \subseteq CatOf(ev, n)) THEN "bad:category-not-from-self-or-children"
